@@ -1,4 +1,7 @@
 ------------------------------- MODULE PropsAll ------------------------------
-EXTENDS Props
-JudgeMore(e) == << Chk("TOOL", "TOOL", "unknown event kind", FALSE) >>
+EXTENDS PropsWrap
+JudgeMore(e) ==
+  CASE e.ev = "wrap" -> Judge_wrap(e)
+    [] e.ev = "fill" -> Judge_fill(e)
+    [] OTHER -> << Chk("TOOL", "TOOL", "unknown event kind", FALSE) >>
 =============================================================================
